@@ -116,9 +116,8 @@ ServablePub  == pv => StillThere(pub, {})
 ServableLock == StillThere(lock, staged)
 
 \* the same in absolute terms, for directories small enough to enumerate
-Complete(d, n, extra) == Needed(n) \subseteq (Readable(d) \cup extra)
-ServablePubAbs  == (pv /\ Complete(dir0, pub, {})) => Complete(dir, pub, {})
-ServableLockAbs == Complete(dir0, lock, staged) => Complete(dir, lock, staged)
+ServablePubAbs  == pv => LET N == Needed(pub) IN N \subseteq Readable(dir0) => N \subseteq Readable(dir)
+ServableLockAbs == LET N == Needed(lock) \ staged IN N \subseteq Readable(dir0) => N \subseteq Readable(dir)
 
 \* no hash or entry is lost: what a removed partial tile held is a prefix of
 \* a tile that is still there
@@ -127,9 +126,12 @@ NoDataLoss ==
         \E g \in dir : g.t \in {"full", "partial"} /\ SameTile(f, g) /\ g.w >= f.w
 
 \* what LoadLog reads
-Edge(n) == LET A == Needed(n) IN {t \in A : \A u \in A : (u.k = t.k /\ u.l = t.l) => u.n <= t.n}
-Restartable(d) == Edge(lock) \subseteq (Readable(d) \cup staged)
-RestartOK == Restartable(dir0) => Restartable(dir)
+IsEdge(t, n) == LET m == DivPow(n, t.l) IN m > 0 /\ t.n = (m - 1) \div TW
+Edge(n) == {t \in Needed(n) : IsEdge(t, n)}
+\* (Tiling's RightEdge, by arithmetic)
+ASSUME MaxN = 0 \/
+       \A n \in 0..(MaxN + MaxD) : {t \in AllTiles(n) : IsEdge(t, n)} = RightEdge(n)
+RestartOK == LET E == Edge(lock) \ staged IN E \subseteq Readable(dir0) => E \subseteq Readable(dir)
 
 (***************************************************************************)
 (* The abstract tool (cleanDir / overrideImmutable), with its guards as    *)
